@@ -24,6 +24,10 @@ pub struct GenCfg {
     /// spellings whose re-encoding is listed as a known finding; switched off where the
     /// workload must stay inside the part of the space with no known finding
     pub exotic: bool,
+    /// size outlier: when set, some construct of the document (a string, a list, the columns or
+    /// the rows of a grid) gets exactly this many elements - sizes sit on both sides of the
+    /// powers of two where length fields, limits and buffers usually end
+    pub big: Option<usize>,
 }
 
 impl GenCfg {
@@ -44,6 +48,7 @@ impl GenCfg {
             p_ref_dis: *rng.pick(&[0, 300, 800]),
             newline: rng.below(4) as u8,
             exotic: true,
+            big: if rng.chance(1, 40) { Some(*rng.pick(&[127usize, 128, 129, 255, 256, 257, 300, 1023, 1024, 1025, 4097, 65535, 65537])) } else { None },
         }
     }
 }
@@ -231,7 +236,13 @@ impl<'r> Emitter<'r> {
 
     /// contents for a quoted string, already spelled (escapes chosen here)
     pub fn str_body(&mut self, quote: char) -> String {
-        let n = self.rng.range(0, 10);
+        let mut n = self.rng.range(0, 10);
+        if let Some(big) = self.cfg.big {
+            if self.rng.chance(1, 3) {
+                n = big;
+                self.cfg.big = None; // one outlier per document
+            }
+        }
         let mut s = String::new();
         for _ in 0..n {
             if self.rng.chance(self.cfg.p_escape, 1000) {
@@ -399,7 +410,13 @@ impl<'r> Emitter<'r> {
 
     pub fn list(&mut self, depth: usize) {
         self.tok("[");
-        let n = self.rng.range(0, self.cfg.max_items);
+        let mut n = self.rng.range(0, self.cfg.max_items);
+        if let Some(big) = self.cfg.big {
+            if big <= 4097 && self.rng.chance(1, 3) {
+                n = big;
+                self.cfg.big = None;
+            }
+        }
         for i in 0..n {
             self.ws();
             self.value(depth);
@@ -469,8 +486,18 @@ impl<'r> Emitter<'r> {
             self.tags(depth, false, n);
         }
         self.newline();
-        let ncols = self.rng.range(1, self.cfg.max_cols);
+        let mut ncols = self.rng.range(1, self.cfg.max_cols);
         let mut nrows = self.rng.range(0, self.cfg.max_rows);
+        if let Some(big) = self.cfg.big {
+            if big <= 1025 && self.rng.chance(1, 3) {
+                if self.rng.chance(1, 2) {
+                    ncols = big;
+                } else {
+                    nrows = big;
+                }
+                self.cfg.big = None;
+            }
+        }
         if !self.cfg.exotic && nrows == 0 {
             nrows = 1;
         }
